@@ -22,6 +22,7 @@ RULE = (
 ASSUMPTIONS = [
     "addTier's tierIndex has list.insert semantics (what the code does and the quantifier's index range -2..len+2 implies)",
     "removing a missing tier / renaming or replacing a missing name must raise (any exception) and change nothing",
+    "tier objects handed to addTier/replaceTier stay as the caller made them (a textgrid edits its map, not its callers' tiers)",
 ]
 REQUIRED_CLASSES = ["map_bfs:indexed_insert_then_rename_or_replace", "map_bfs:rejected_duplicate", "tierwise:changed"]
 
@@ -76,17 +77,31 @@ def model_apply(state, op):
     raise AssertionError(kind)
 
 
+HANDED = []  # (tier object handed to the textgrid, its snapshot at that time)
+
+
 def real_apply(tg, op, span=(0.0, 4.0)):
     kind = op["op"]
     with quiet():
         if kind == "add":
-            tg.addTier(_mk(op["name"], op["variant"], span), op["index"])
+            t = _mk(op["name"], op["variant"], span)
+            HANDED.append((t, snap_tier(t)))
+            tg.addTier(t, op["index"])
         elif kind == "remove":
             tg.removeTier(op["name"])
         elif kind == "rename":
             tg.renameTier(op["name"], op["new"])
         else:
-            tg.replaceTier(op["name"], _mk(op["new"], op["variant"], span))
+            t = _mk(op["new"], op["variant"], span)
+            HANDED.append((t, snap_tier(t)))
+            tg.replaceTier(op["name"], t)
+
+
+def check_handed(what):
+    """A textgrid must not rename or edit the tier objects its callers hold (they may sit in other textgrids)."""
+    for t, snap in HANDED:
+        if snap_tier(t) != snap:
+            raise Violation("argument-tier-modified", f"{what}: a tier object handed to the textgrid changed from {snap} to {snap_tier(t)}")
 
 
 def observe(tg):
@@ -104,6 +119,7 @@ def run_path(case):
     state = ()
     classes = set()
     indexed = False
+    del HANDED[:]
     for k, op in enumerate(case["ops"]):
         new_state, status = model_apply(state, op)
         before = observe(tg)
@@ -127,6 +143,7 @@ def run_path(case):
         got = observe(tg)
         if got != new_state:
             raise Violation("state-differs", f"{what}: textgrid {got} != model {new_state}")
+        check_handed(what)
         if len(set(tg.tierNames)) != len(tg.tierNames):
             raise Violation("duplicate-names", f"{what}: {tg.tierNames}")
         state = new_state
@@ -206,6 +223,7 @@ def run_span_history(case):
     state = ()
     lo = hi = None
     classes = set()
+    del HANDED[:]
     for k, op in enumerate(case["ops"]):
         new_state, status = model_apply(state, op)
         span = tuple(op.get("span", (0.0, 4.0)))
@@ -220,6 +238,7 @@ def run_span_history(case):
             raise Violation("accept-reject-mismatch", f"{what}: model {status}, real {type(raised).__name__ if raised else 'ok'}")
         if observe(tg) != new_state:
             raise Violation("state-differs", f"{what}: textgrid {observe(tg)} != model {new_state}")
+        check_handed(what)
         if status == "ok" and op["op"] in ("add", "replace"):
             lo = span[0] if lo is None else min(lo, span[0])
             hi = span[1] if hi is None else max(hi, span[1])
